@@ -118,6 +118,18 @@ def classify_cond(c, cls_fns):
         return None
     if ty == "char" and contains_call(d, lambda n: n.endswith("Iterator>::last")):
         return ("rmc", vals, allv)
+    if ty == "bool" and d.k == "bin" and d.a[0] in ("Eq", "Ne"):
+        # base_rmc == 'ৎ' written as a comparison instead of a match arm
+        x, y = strip_refs(d.a[1]), strip_refs(d.a[2])
+        ch = y if is_const(y, "char") else (x if is_const(x, "char") else None)
+        other = x if ch is y else y
+        bv = bool_of((d, vals, allv, ty))
+        if ch is not None and bv is not None and contains_call(other, lambda n: n.endswith("Iterator>::last")) is not None:
+            if neg:
+                bv = not bv
+            if d.a[0] == "Ne":
+                bv = not bv
+            return ("rmc_eq", const_val(ch), bv)
     return None
 
 
@@ -138,6 +150,9 @@ def join_table(region, cls_fns):
                             ok = False
                         elif cl[0] == "kar" and cl[1] != kar:
                             ok = False
+                        elif cl[0] == "rmc_eq":
+                            if (rmc == cl[1]) != cl[2]:
+                                ok = False
                         elif cl[0] == "rmc":
                             vals, allv = cl[1], cl[2]
                             code = ord(rmc) if rmc != "other" else None
@@ -382,7 +397,7 @@ def run(ctx):
         r3.undecidable("builder", "candidate builder (returns Vec<Rank>) not identified among %s" % sib)
     else:
         fk = builder[0]
-        b = prog.body(fk)
+        b = _roles.ib(prog, fk)
         # inner loop: iterates the memo entry of the base
         heads = b.loops()
         inner = None
@@ -406,37 +421,42 @@ def run(ctx):
                 for (node, vals, tgt) in b.switch_edges(sw):
                     if vals == (1,):
                         some_tgt = tgt
-                avoid = b.reachable_from(some_tgt, avoid=[pb]) if some_tgt is not None else set()
-                skips = h in avoid
-                if not skips:
-                    r3.ok("no-skip", "every base candidate reaches the push")
-                else:
-                    # allowed: skip only through None edges of last()/next() discriminants
-                    allowed = True
-                    why = None
-                    for x in sorted(avoid & body_blocks):
-                        t = b.blocks[x]["term"]
-                        if t["k"] != "switch":
+                # one iteration, path by path (decisions already fixed on a path — e.g. a helper's `None` result being matched — are not
+                # branch points): a path that comes back to the head without the push may only have taken "is empty" edges
+                from engine.analyses import sym_paths
+                try:
+                    iter_paths = sym_paths(b, some_tgt, 4000, None, stops={h, pb}) if some_tgt is not None else []
+                    bad_skip = None
+                    n_skip = 0
+                    for (path, env_, conds) in iter_paths:
+                        if path[-1][0] != h:
                             continue
-                        if x == sw:
-                            continue        # the loop's own exhaustion test
-                        for (node, vals, tgt) in b.switch_edges(x):
-                            if b.blocks[tgt]["term"]["k"] == "unreachable" or tgt not in body_blocks:
+                        n_skip += 1
+                        for (d, vals, allv, ty_, bbx) in conds:
+                            d = strip_refs(d)
+                            none_edge = d.k == "discr" and contains_call(d, lambda n: n.endswith("Iterator>::last") or n.endswith("Iterator>::next")) is not None \
+                                and (vals == (0,) or (vals == "otherwise" and 0 not in allv))
+                            some_edge = d.k == "discr" and contains_call(d, lambda n: n.endswith("Iterator>::last") or n.endswith("Iterator>::next")) is not None \
+                                and not none_edge
+                            if none_edge:
+                                break               # this skip is justified by an empty base / suffix form
+                            if some_edge:
                                 continue
-                            leads_skip = h in b.reachable_from(tgt, avoid=[pb]) and pb not in b.reachable_from(tgt, avoid=[h])
-                            if not leads_skip:
-                                continue
-                            d = strip_refs(b.expr_operand(t["discr"]))
-                            is_none_edge = d.k == "discr" and (contains_call(d, lambda n: n.endswith("Iterator>::last") or n.endswith("Iterator>::next"))
-                                                               is not None) and vals == "otherwise"
-                            if not is_none_edge:
-                                allowed = False
-                                why = (x, d, vals)
-                    if allowed:
+                            bad_skip = (bbx, d, vals)
+                            break
+                        else:
+                            bad_skip = bad_skip or (path[-2][0], E("const", ("str", "no emptiness test on the path")), None)
+                        if bad_skip:
+                            break
+                    if bad_skip:
+                        r3.violation("no-skip", "a base candidate can be skipped without being joined when %r = %s (filter / continue / break in the loop)" % (bad_skip[1], bad_skip[2]),
+                                     site_of(b, bad_skip[0]))
+                    elif n_skip:
                         r3.ok("no-skip", "a base candidate is skipped only when it (or the suffix form) is an empty string")
                     else:
-                        r3.violation("no-skip", "a base candidate can be skipped without being joined when %r = %s (filter / continue / break in the loop)" % (why[1], why[2]),
-                                     site_of(b, why[0]))
+                        r3.ok("no-skip", "every base candidate reaches the push")
+                except PathLimit as e_:
+                    r3.undecidable("no-skip", "cannot enumerate the paths of one iteration: %s" % e_, site_of(b, h))
                 # the pushed item: clone of the base with the joined word as item
                 r3.ok("push", "one push per base candidate")
             # no break out of the outer/inner loops other than iterator exhaustion
@@ -445,7 +465,7 @@ def run(ctx):
                 lb = b.loop_body(hd, tl)
                 for x in lb:
                     for sx in b.bsucc[x]:
-                        if sx not in lb:
+                        if sx not in lb and b.blocks[sx]["term"]["k"] != "unreachable":
                             # exit edge: must be the None edge of the loop's own next()
                             swb = b.blocks[hd]["term"].get("target")
                             if x != swb:
